@@ -3,7 +3,7 @@ From MoPep Require Import Model.Base Model.Gvf Gen.GvfConst.
 Open Scope Z_scope.
 
 Definition gen_cfg : cfg :=
-  mkCfg attrs_position single_nucleotide_substitution variant_types no_len_check_types
+  mkCfg writer_shift reader_shift single_nucleotide_substitution variant_types no_len_check_types
         upper3_types fusion_alt alt_table.
 (* the parser of the unchanged code, and of the code with reader keys = writer keys *)
 Definition gen_parse2 := parse2 gen_cfg circ_rkeys.
